@@ -42,7 +42,7 @@ Now(b) ==
        /\ issuedBy' = [issuedBy EXCEPT ![b] = Append(@, n)]
     /\ UNCHANGED <<phys, isopen, cmark>>
 (* SetWithMeta / DeleteWithMeta into another collection of the bucket with a caller-chosen CAS just below (lo) or
-   above the bucket's mark: the collection's mark follows it, the bucket's mark never falls, the clock is not told *)
+   above the bucket's mark: the collection's mark follows it, the bucket's mark never falls, the clock learns of it *)
 Meta(b, lo) ==
     /\ isopen[b]
     /\ LET v == IF lo THEN persisted[b] - 1 ELSE persisted[b] + 2 IN
@@ -50,7 +50,8 @@ Meta(b, lo) ==
        /\ IF v <= cmark[b] THEN UNCHANGED <<persisted, cmark>>
           ELSE /\ cmark' = [cmark EXCEPT ![b] = v]
                /\ persisted' = [persisted EXCEPT ![b] = IF MetaKeepsMark /\ @ > v THEN @ ELSE v]
-    /\ UNCHANGED <<highest, phys, isopen, issuedEpoch, issuedBy>>
+       /\ highest' = IF v > cmark[b] /\ v > highest THEN v ELSE highest    \* the clock learns of a CAS above the collection's mark
+    /\ UNCHANGED <<phys, isopen, issuedEpoch, issuedBy>>
 (* the process ends (all handles closed or the process killed); a new process starts with an empty clock *)
 Restart ==
     /\ highest' = 0
